@@ -19,19 +19,27 @@ PROPS["C19"] = dict(
 )
 
 MIN = MINCACHE
+def _omp_run(pid, kinds, tier):
+    """OpenMP-build run of a sequential property: the C16 scenarios of the given kinds under the ICB scheduler + mini-GOMP
+    (result equals the reference model for every explored schedule, happens-before race detection)."""
+    args = ["--bound=1", "--as=" + pid, "--kinds=" + hex(kinds)] + ([] if tier == "thorough" else ["--max-team=4"])
+    if tier == "thorough": args.append("--teams=1-5")
+    return _icb(C(openmp=1, instr="tsancb", opt="-O1"), "icb/h_c16.c", args, "openmp-build-icb")
+
 def _c01_runs(tier):
     rs = []
     rs.append(Run(C(), "harness/p_c01.c", ["--mode=alias"], group="host-alias"))
     for mode in ("grid", "split", "big"):
         rs.append(Run(C(), "harness/p_c01.c", ["--mode=" + mode], group="host-" + mode))
         rs.append(Run(C(sse2=0, **MIN), "harness/p_c01.c", ["--mode=" + mode], group="min-" + mode))
+    rs.append(_omp_run("C01", 0x2f, tier))
     return rs
 
 PROPS["C01"] = dict(
     level="exploration", runs=_c01_runs,
-    rule="complete product of declared alphabets: multiplication routes x parameters (k in {-1..17 sample incl. all of 2..8}, cutoffs) x shape triples x operand pattern pairs (dense pairs, sparse, identity, zero, and complete unit bases by bilinearity: l cyclic one-entry-per-row matrices for A, l for B), plus 'alias' cases where the two factors are distinct views of ONE parent matrix (common top-left corner / side by side / overlapping rows) for all shape triples of a boundary set; a case is (route, parameter, shape, patterns); non-trivial = the reference product is non-zero; distinct = distinct (operand digest, route, parameter)",
+    rule="(OpenMP build: the multi-core front ends, Strassen and M4RM products of C16's scenario list run under the ICB scheduler with the mini-GOMP runtime for teams 2..4 (thorough 1..5): result equals the reference model on every explored schedule, happens-before race detection) + complete product of declared alphabets: multiplication routes x parameters (k in {-1..17 sample incl. all of 2..8}, cutoffs) x shape triples x operand pattern pairs (dense pairs, sparse, identity, zero, and complete unit bases by bilinearity: l cyclic one-entry-per-row matrices for A, l for B), plus 'alias' cases where the two factors are distinct views of ONE parent matrix (common top-left corner / side by side / overlapping rows) for all shape triples of a boundary set; a case is (route, parameter, shape, patterns); non-trivial = the reference product is non-zero; distinct = distinct (operand digest, route, parameter)",
     level_text="Bounded-exhaustive differential exploration: every multiplication entry point is executed on the complete Cartesian product of finite shape/pattern/parameter alphabets (all residues around 64-bit words, Strassen split limits, cubic/table switches) in a default and a minimum-cache/no-SSE2 build, and every result is compared bit for bit with an independent reference product; factors must be unchanged and padding zero; ASan/UBSan on.",
-    level_note="Bounded: dimensions <= ~1400, fixed pattern alphabets (unit bases are complete only under bilinearity, which is assumed, not proved). OpenMP front ends are covered in C16.",
+    level_note="Bounded: dimensions <= ~1400, fixed pattern alphabets (unit bases are complete only under bilinearity, which is assumed, not proved). OpenMP build: run under ICB here (quick: teams 2..4), the full team range in C16.",
     technique="bounded-exhaustive enumeration of input/parameter alphabets on the real code against a reference model",
     assumptions=["reference product in harness/vx.c (validated against a byte-per-entry triple loop at start-up)", "clang 14 ASan+UBSan builds: host cache sizes with SSE2, and L1/L2/L3 = 4K/32K/64K without SSE2"],
 )
@@ -43,11 +51,12 @@ def _c02_runs(tier):
     rs.append(Run(C(sse2=0, **MIN), "harness/p_c02.c", ["--mode=lift", "--setbits=25"] + ([] if tier == "thorough" else ["--lift-b=65"]), group="host-lift"))
     rs.append(Run(C(sse2=0, **MIN), "harness/p_c02.c", ["--mode=struct"], group="host-struct"))
     rs.append(Run(C(**MIN), "harness/p_c02.c", ["--mode=big"], group="min-big"))
+    rs.append(_omp_run("C02", 0x410, tier))
     return rs
 
 PROPS["C02"] = dict(
     level="exploration", runs=_c02_runs,
-    rule="entry points {naive, gauss_delayed, M4RI (k alphabet), PLUQ-based, hybrid, hybrid with every threshold} x full in {0,1} x inputs: TINY(N) = ALL matrices with <= N entries of every shape (N=14 quick / 18 thorough), LIFT = Kronecker lifts of ALL binary matrices with <= 8 (12) entries by blocks {7,33,65,(1,64)} x {identity, dense invertible, all-ones} x {plain, left-, both-side densified}, ECH = echelon forms over ALL subsets of 10 boundary pivot columns, RK = low-rank products on boundary shapes, BND = boundary shapes x structured patterns, HYB = sparse-start/dense-end block matrices with > 256 sparse columns on which the density-switching hybrid changes algorithm in the middle (every threshold in {0,0.05,0.1,0.2,0.25,0.5,1,2} x k in {0,3,6}), plus threshold shapes of the min-cache build; non-trivial = rank > 0; distinct = distinct (input digest, entry point, full, k, threshold)",
+    rule="(OpenMP build: mzd_echelonize_m4ri and mzd_echelonize_pluq on > 512-row rank-deficient inputs run under the ICB scheduler with the mini-GOMP runtime for teams 2..4 (thorough 1..5): result equals the reference model on every explored schedule, happens-before race detection) + entry points {naive, gauss_delayed, M4RI (k alphabet), PLUQ-based, hybrid, hybrid with every threshold} x full in {0,1} x inputs: TINY(N) = ALL matrices with <= N entries of every shape (N=14 quick / 18 thorough), LIFT = Kronecker lifts of ALL binary matrices with <= 8 (12) entries by blocks {7,33,65,(1,64)} x {identity, dense invertible, all-ones} x {plain, left-, both-side densified}, ECH = echelon forms over ALL subsets of 10 boundary pivot columns, RK = low-rank products on boundary shapes, BND = boundary shapes x structured patterns, HYB = sparse-start/dense-end block matrices with > 256 sparse columns on which the density-switching hybrid changes algorithm in the middle (every threshold in {0,0.05,0.1,0.2,0.25,0.5,1,2} x k in {0,3,6}), plus threshold shapes of the min-cache build; non-trivial = rank > 0; distinct = distinct (input digest, entry point, full, k, threshold)",
     level_text="Bounded-exhaustive differential exploration: every echelonisation entry point on every member of complete small-matrix domains and of structured families that place every block rank profile across word and table-block boundaries; rank, exact RREF, echelon shape, row space and top-reduction are compared with an independent Gaussian elimination.",
     level_note="Bounded: all matrices only up to 14/18 entries; beyond that lifts of exhaustive cores and fixed families up to 1300 columns. Hybrid density heuristic is only entered for matrices with > 256 columns in the loop and at the start for dense inputs.",
     technique="bounded-exhaustive enumeration (all small matrices, all lifted rank profiles) on the real code against a reference Gaussian elimination",
@@ -116,11 +125,12 @@ def _c04_runs(tier):
     rs.append(Run(C(**MIN), "harness/p_c04.c", ["--mode=big"], group="min-big"))
     if tier == "thorough":
         rs.append(Run(C(**MIN), "harness/p_c04.c", ["--mode=units"], group="host-units"))
+    rs.append(_omp_run("C04", 0x3c0, tier))
     return rs
 
 PROPS["C04"] = dict(
     level="exploration", runs=_c04_runs,
-    rule="variants {4 public wrappers x cutoffs, 4 _mzd_ cores, 2 Four-Russians cores x k in 0..8} x opposite-triangle fill {zeros, ones, pseudo-random} x T in {ALL unit-triangular matrices n <= 5 (6), a single off-diagonal entry at every position (n up to 66 / 130), full triangle, PR triangles of three densities} x n around word boundaries and the recursion thresholds of the build x B widths {1,2,63,64,65,129,n}; non-trivial = B non-zero; distinct = distinct (T, B, variant, parameter)",
+    rule="(OpenMP build: the four triangular solves with n = 600/650 (thorough also 1100) run under the ICB scheduler with the mini-GOMP runtime for teams 2..4 (thorough 1..5): result equals the reference model on every explored schedule, happens-before race detection) + variants {4 public wrappers x cutoffs, 4 _mzd_ cores, 2 Four-Russians cores x k in 0..8} x opposite-triangle fill {zeros, ones, pseudo-random} x T in {ALL unit-triangular matrices n <= 5 (6), a single off-diagonal entry at every position (n up to 66 / 130), full triangle, PR triangles of three densities} x n around word boundaries and the recursion thresholds of the build x B widths {1,2,63,64,65,129,n}; non-trivial = B non-zero; distinct = distinct (T, B, variant, parameter)",
     level_text="Bounded-exhaustive differential exploration of the four triangular solves: complete enumeration of small triangular matrices and of single-entry positions, structured and dense triangles at every size class (base case <= 64, Four-Russians, recursion in the min-cache build), always with three different contents of the unused triangle; the oracle multiplies the named triangle by the result with the reference product.",
     level_note="Bounded: n <= ~600; dense triangles are fixed pseudo-random patterns.",
     technique="bounded-exhaustive enumeration on the real code against a reference product (T_named * X == B)",
@@ -136,11 +146,12 @@ def _c05_runs(tier):
     rs.append(Run(C(sse2=0, **MIN), "harness/p_c05.c", ["--mode=big"], group="min-big"))
     if tier == "thorough":
         rs.append(Run(C(sse2=0, **MIN), "harness/p_c05.c", ["--mode=lift"], group="host-lift"))
+    rs.append(_omp_run("C05", 0x800, tier))
     return rs
 
 PROPS["C05"] = dict(
     level="exploration", runs=_c05_runs,
-    rule="routines {mzd_inv_m4ri with NULL / supplied destination x k in 0..10, mzd_invert_naive with NULL / supplied destination, mzd_trtri_upper, mzd_trtri_upper_russian x k in 0..8} x inputs: ALL of GL_n(2) for n <= 4 (5), ALL unit upper triangular matrices n <= 6 (7), Kronecker lifts of all small unit-triangular / invertible cores by blocks {7,33,(64),65}, dense invertible / PR unit-triangular / rotation / full-triangle matrices at boundary sizes, and the recursive trtri branch in the min-cache build (n >= 363); non-trivial = n > 1; distinct = distinct (input, routine, k)",
+    rule="(OpenMP build: mzd_inv_m4ri with n = 600 (thorough also 530, k = 3) run under the ICB scheduler with the mini-GOMP runtime for teams 2..4 (thorough 1..5): result equals the reference model on every explored schedule, happens-before race detection) + routines {mzd_inv_m4ri with NULL / supplied destination x k in 0..10, mzd_invert_naive with NULL / supplied destination, mzd_trtri_upper, mzd_trtri_upper_russian x k in 0..8} x inputs: ALL of GL_n(2) for n <= 4 (5), ALL unit upper triangular matrices n <= 6 (7), Kronecker lifts of all small unit-triangular / invertible cores by blocks {7,33,(64),65}, dense invertible / PR unit-triangular / rotation / full-triangle matrices at boundary sizes, and the recursive trtri branch in the min-cache build (n >= 363); non-trivial = n > 1; distinct = distinct (input, routine, k)",
     level_text="Bounded-exhaustive differential exploration of the inversion routines: complete enumeration of the small general linear groups and of small unit-triangular matrices, their lifts across word boundaries, and boundary/threshold sizes; A*B = B*A = I and equality with the reference inverse are checked for every case.",
     level_note="Bounded: complete enumeration only for n <= 4 (5) resp. 6 (7); larger inputs are lifts and fixed pseudo-random matrices up to n ~ 770.",
     technique="bounded-exhaustive enumeration (all of GL_n(2) for small n, all small unit-triangular matrices, lifts) on the real code against a reference inverse",
@@ -219,11 +230,12 @@ def _c10_runs(tier):
     return [Run(C(), "harness/p_c10.c", ["--mode=env", "--setbits=24"], group="env"),
             Run(C(), "harness/p_c10.c", ["--mode=history"], group="history"),
             Run(C(sse2=0, **MIN), "harness/p_c10.c", ["--mode=env", "--setbits=24"], group="env"),
-            Run(C(sse2=0, **MIN), "harness/p_c10.c", ["--mode=history"], group="history")]
+            Run(C(sse2=0, **MIN), "harness/p_c10.c", ["--mode=history"], group="history"),
+            Run(C(), "harness/p_c09.c", ["--setbits=24"], group="views-dirty-parents", extra_cflags=["-DVX_C10_VIEWS"])]
 
 PROPS["C10"] = dict(
     level="exploration", runs=_c10_runs,
-    rule="for every op of the registry (81 entry points) x its shapes x 2 data sets, enumerated environment deviations: (i) ALL allocations returning 0xFF-filled / patterned memory, and EACH SINGLE allocation i = 1..N deviating (N = requests counted in the baseline run; capped at 48 per case in quick, uncapped thorough); (ii) the block cache pre-loaded with dirtied blocks of exactly the sizes the op requests; (iii) every ordered pair (thorough: triple) of a 28-call menu run in one process, the last call compared with the same call alone; (iv) prior destination content in {zeros, ones, PR} for every overwriting op; the outcome digest covers every operand, the scalar result and the returned matrix; raw padding of every owned matrix is inspected; non-trivial = every case; distinct = distinct (op, shape, data, deviation)",
+    rule="(views) every op of the registry with each subset of its operands placed as views into parents filled with ones / pseudo-random bits (placements as in C09): returned value, result matrix and final operand values equal the call on standalone copies and every OWNED operand / result keeps zero padding; (environment) for every op of the registry (81 entry points) x its shapes x 2 data sets, enumerated environment deviations: (i) ALL allocations returning 0xFF-filled / patterned memory, and EACH SINGLE allocation i = 1..N deviating (N = requests counted in the baseline run; capped at 48 per case in quick, uncapped thorough); (ii) the block cache pre-loaded with dirtied blocks of exactly the sizes the op requests; (iii) every ordered pair (thorough: triple) of a 28-call menu run in one process, the last call compared with the same call alone; (iv) prior destination content in {zeros, ones, PR} for every overwriting op; the outcome digest covers every operand, the scalar result and the returned matrix; raw padding of every owned matrix is inspected; non-trivial = every case; distinct = distinct (op, shape, data, deviation)",
     level_text="Deviation-bounded exhaustive exploration of the environment: the allocator is an adversary whose answers (memory content per allocation, recycled blocks) are enumerated one deviation at a time and all-at-once, call histories are enumerated as ordered pairs/triples, and every outcome must equal the one in the default environment.",
     level_note="Bounded: one deviation at a time or all at once (not arbitrary subsets); histories of length <= 2 (3). calloc keeps its zeroing semantics. The allocation histories of the caches themselves are explored as a state graph in C14.",
     technique="deviation-bounded exhaustive enumeration of allocator answers and call histories on the real code (differential against the baseline environment)",
